@@ -23,10 +23,20 @@ class SigchldHelper:
     @contextlib.contextmanager
     def track(self):
         self._read_pipe, self._write_pipe = os.pipe()
+        os.set_blocking(self._write_pipe, False)
         existing_handler = signal.signal(signal.SIGCHLD, SigchldHelper._handler)
+        # Python-level signal handlers only run between bytecodes. A SIGCHLD that
+        # arrives right before `wait()` enters its blocking `os.read()` would
+        # otherwise only be handled after that read returns (possibly never).
+        # With a wakeup fd the interpreter writes to the pipe as soon as the
+        # signal arrives, so the read always returns.
+        existing_wakeup_fd = signal.set_wakeup_fd(
+            self._write_pipe, warn_on_full_buffer=False
+        )
         try:
             yield
         finally:
+            signal.set_wakeup_fd(existing_wakeup_fd)
             signal.signal(signal.SIGCHLD, existing_handler)
             os.close(self._write_pipe)
             os.close(self._read_pipe)
@@ -35,12 +45,18 @@ class SigchldHelper:
             self._read_pipe = None
 
     def wait(self) -> Tuple[int, int]:
-        _ = os.read(self._read_pipe, 1)
+        # The pipe is only used to wake up; `_returncodes` holds the results.
+        while len(self._returncodes) == 0:
+            _ = os.read(self._read_pipe, 1)
         return self._extract_any()
 
     def _add_returncode(self, pid: int, returncode: int) -> None:
         self._returncodes.append((pid, returncode))
-        os.write(self._write_pipe, b"\0")
+        try:
+            os.write(self._write_pipe, b"\0")
+        except BlockingIOError:
+            # The pipe is full, so a wake up is pending anyway.
+            pass
 
     def _extract_any(self) -> Tuple[int, int]:
         # Precondition: `self._returncodes` must be non-empty.
